@@ -283,6 +283,20 @@ PROPS = {
         "design_ref": "DESIGN.md §2.2, §3 C20 (as built)",
         "level_note": "trusts clang 14 CFGs and the role tables of tool/msa/ftype.cc; the equality-of-fixed-points statement itself stays undecided",
     },
+    "C18": {
+        "title": "Memory managers never hand out overlapping or corrupted chunks",
+        "rules": [on_program(rules_storage.rule_coalesce), on_program(rules_storage.rule_threshold_first), on_program(rules_sibling.rule_small_hole_threshold)],
+        "explanation": STRUCTURAL + ". C18: hole-bookkeeping clauses of the three hole-based managers (array+grid, original grid, heap). Coalescing protocol of recycleChunk: the freed chunk is tagged as a hole before any neighbour is tested; "
+                       "a neighbouring hole leaves the manager's tracked set before `numSlots += getHoleSize(neighbour)` (the heap manager's current hole, which is in neither structure, excepted); the grown hole is re-tagged before it is used; and the final hole "
+                       "enters the tracked set on every path except the array-end give-back. Classification: the large-hole threshold is raised before holes are re-classified against it, and the small-hole threshold is one quantity at every site. "
+                       "Each is a necessary condition of 'no overlapping chunk, a chunk at least as large as requested': a neighbour that stays tracked after being absorbed, or a hole classified against a stale threshold, is served without a size check.",
+        "assumptions": ["non-overlap and content preservation over arbitrary request/recycle sequences is a heap-shape invariant over run-time addresses and is not decided as such",
+                        "the malloc-style and free-list managers have no coalescing and are outside these rules", "the vocabulary of track / untrack functions per manager is a table confirmed by reading (lib/rules_storage.py COALESCE_VOCAB)"],
+        "technique": "typestate-style must-precede / must-follow path rules with guard-edge exceptions over the clang CFGs of recycleChunk / requestChunk; twin comparison of the threshold tests",
+        "level_text": "exact static rule check over recycleChunk and requestChunk of array_plus_grid, original_grid and heap_manager (one instantiation each; the template bodies are identical across slot types); decides structural necessary conditions only",
+        "design_ref": "DESIGN.md §3 C18 (as built)",
+        "level_note": "trusts clang 14 CFGs and the per-manager vocabulary table",
+    },
     "C19": {
         "title": "Values survive encoding into terminals and edge values",
         "rules": [on_program(rules_guard.rule_int_overflow), on_program(rules_guard.rule_edge_for_value), on_program(rules_guard.rule_zero_of_stored), on_program(rules_codec.rule_terminal_codec), on_program(rules_codec.rule_tokens)],
@@ -298,8 +312,7 @@ PROPS = {
 
 _PENDING ="check under construction in this round (planned rules: DESIGN.md §3); not claimed until it runs"
 NOT_APPLICABLE = {
-    "C18": "non-overlap/content preservation over arbitrary request/recycle sequences is a heap-shape invariant over run-time addresses; no abstract interpreter for these C++ units is available (DESIGN §3 C18)",
 }
-for _p in ("C01", "C02", "C03", "C04", "C05", "C06", "C07", "C08", "C09", "C10", "C11", "C12", "C13", "C14", "C15", "C16", "C19", "C20"):
+for _p in ("C01", "C02", "C03", "C04", "C05", "C06", "C07", "C08", "C09", "C10", "C11", "C12", "C13", "C14", "C15", "C16", "C18", "C19", "C20"):
     if _p not in PROPS:
         NOT_APPLICABLE[_p] = _PENDING
